@@ -23,8 +23,10 @@ CLAIMED = {
              ref="DESIGN.md 4 (C07)", note=TRUST, tech=TECH),
  "C04": dict(text="Seeded search over (string multisets: random over 1-4 letters, all-equal, all-empty, long shared prefixes diverging around the 8/16-byte key boundary, bytes 0x01-0xFF, duplicate-heavy, prefix chains; n 0..600) x (9 parameter sets: the default through the public front ends and 8 tiny-threshold / small-splitter-tree tunings over three classifiers, 32- and 64-bit keys, work sharing and rest-size on/off) x (unsigned char*, const unsigned char*, std::string, unique_ptr<std::string>, suffix sets) x with/without LCP x worker counts 1..8 x interleavings of the job graph, wake-up choice, spurious wake-ups and the sampling RNG (seeded by the simulator instead of a heap address, incl. a degenerate constant stream); oracles: permutation of the original objects, unsigned-byte order, exact LCP array, termination (deadlock / step bound), ASan (released work items), TSan. Sampling, not proof.",
              ref="DESIGN.md 4 (C04)", note=TRUST, tech=TECH),
+ "C16": dict(text="Single-task simulated runs: seeded histories (push/emplace/pop at both ends, indexing, clear, copy/move construction and assignment, allocate/deallocate, copy_to/move_to, destruction; capacities 0..9; int and heap-owning ledgered elements; SimpleVector in its three modes with construct/move/swap/resize/destroy/fill) executed against the real containers inside the simulator's allocator environment (seeded block recycling, poisoning with quarantine, canaries) and element-lifetime ledger; oracles: std::deque / std::vector model after every step, alive <=> stored, allocate/deallocate ledger (size and type match, nothing live at the end, released blocks untouched), ASan. There is no schedule in this property: the simulator-owned dimension is the allocator/lifetime environment. Sampling, not proof.",
+             ref="DESIGN.md 4 (C16), 1 (single-task claims)", note="Trusted: the simulated allocator behaves like a conforming allocator (recycling, no zeroing); the reference model is std::deque/std::vector; ASan on the same histories. -DNDEBUG like the shipped library.", tech=TECH_SEQ),
 }
-PENDING = ["C02", "C16", "C17"]
+PENDING = ["C02", "C17"]
 NA = {
  "C01":"pure function of a single-threaded call history: no schedule, clock, fault or environment seam in the statement (model-based testing, not simulation) - DESIGN.md 5",
  "C03":"sequential string sorts are pure functions of (strings, memory limit); nothing for a scheduler or fault injector to own - DESIGN.md 5",
